@@ -293,7 +293,7 @@ def gen_op(rng):
         (3, lambda: "symlink %s %s" % (any_path(rng), any_path(rng))),
         (3, lambda: "readlink %s" % any_path(rng)),
         (3, lambda: "realpath %s" % any_path(rng)),
-        (4, lambda: "ftruncate %s %d" % (s, rng.choice([0, 0, 5, 7, 2000, 4294967296]))),
+        (4, lambda: "ftruncate %s %d" % (s, rng.choice([0, 0, 5, 7, 2000, 70000]))),
         (2, lambda: "fsync %s" % s),
         (2, lambda: "fdatasync %s" % s),
         (2, lambda: "chmod %s %s" % (any_path(rng), rng.choice(["600", "755", "444"]))),
